@@ -382,21 +382,39 @@ def iterators(prog, res):
 
 
 def bytes_of_type_table(prog, res):
+    """T-VALUE: for every SampleType enumerator e, bytes_of_type(e) evaluated by
+    constant propagation through the function (tables, helpers, shifts) is the
+    number of bytes an unpacked sample of that many bits occupies: ceil(bits/8),
+    the bit width being the number in the enumerator's name (u8, i16, f32, u10 ...)."""
+    import re
+    from .. import linear as L
     f = prog.func("bytes_of_type")
     res.touched(f)
     want = tables.enum_below_sentinel(prog, "SampleType")
-    t = tables.array_tables(f)
-    if not t:
-        raise AnalysisBroken("bytes_of_type table not found")
-    tab = list(t.values())[0]
+    if not want or len(f.params) != 1:
+        raise AnalysisBroken("bytes_of_type(enum SampleType) / the SampleType enumerators were not found")
     for name, val in want:
-        e = tab["entries"].get(val)
-        inst = "bytes_of_type[%s]" % name
-        if e is not None and ir.is_const(e) and ir.strip(e)["v"] in (1, 2, 4, 8):
-            res.oblige("T-EXH", inst, True, "%d byte(s)" % ir.strip(e)["v"], f.loc())
+        m = re.search(r"(\d+)$", name)
+        inst = "bytes_of_type(%s)" % name
+        if not m:
+            res.notes.append("T-VALUE: %s carries no bit width in its name; only non-zero is required" % name)
+        need = (int(m.group(1)) + 7) // 8 if m else None
+        an = L.Analysis(prog)
+        st = L.State()
+        st.cells["%s:%s" % (f.name, f.params[0]["n"])] = L.lconst(val)
+        rets = an.run(f, st)
+        vals = set()
+        for rv, s_ in rets:
+            vals.add(int(rv.get(L.ONE, 0)) if (rv is not None and L.is_const(rv)) else None)
+        ok = bool(vals) and None not in vals and len(vals) == 1 and \
+            ((need is not None and vals == {need}) or (need is None and 0 not in vals))
+        if ok:
+            res.oblige("T-EXH", inst, True, "evaluates to %d byte(s) (constant propagation, %d return state(s))" % (list(vals)[0], len(rets)), f.loc())
         else:
+            shown = ", ".join("unknown" if v is None else str(v) for v in sorted(vals, key=lambda x: (x is None, x))) or "nothing"
             res.fail("T-EXH", inst, "T-EXH|bytes_of_type|%s" % name, f.loc(),
-                     "bytes_of_type has no (non-zero) entry for %s: frames of that type are sized as header only" % name)
+                     "bytes_of_type(%s) evaluates to %s; a sample of that type occupies %s byte(s): frames of that type are sized, chained and copied with the wrong image size"
+                     % (name, shown, need if need is not None else "a non-zero number of"))
     g = prog.func("bytes_of_image")
     res.touched(g)
     ok = any(c.get("fn") == "bytes_of_type" for b, i, s in g.all_stmts() for c in ir.calls_in(s))
